@@ -121,6 +121,10 @@ def build_simple_pt(case):
     if case["transforms"]:
         u = np.linalg.qr(rng.normal(size=(d * d, d * d))
                          + 1j * rng.normal(size=(d * d, d * d)))[0]
+        if case["transforms"] == "near_identity":
+            from scipy.linalg import expm
+            x = rng.normal(size=(d * d, d * d))
+            u = expm(1e-7j * (x + x.T))
         kw["transform_in"] = u
         kw["transform_out"] = u.conj().T
     if case.get("named"):
@@ -572,6 +576,8 @@ def run_case(case, dec):
                 died = False
             except simdisk.SoftDeath:
                 died = True
+            import gc
+            gc.collect()      # finalisers of the writer's objects run first
             disk3.interpreter_shutdown()
             if not died or name not in disk3.files:
                 continue
